@@ -319,6 +319,10 @@ def _ser(case, ctx, b, prog, opts):
             continue
         snap = hostile.snapshot(real) if isinstance(real, (list, dict, tuple)) else None
         bad = False
+        # "check_type=True for well-typed values": well-typed for the alternative each union actually serves
+        strict = M.conforms_first_match(prog, root, vc)
+        if not strict:
+            ctx.h("check_type_skipped:value_fits_a_later_union_alternative_only")
         for pti in [0] + list(case["pt"]):
             ptkw = dict(PT_VARIANTS[pti])
             for with_types in ((False, True) if first_cls is not None and pti != 0 else (False,)):
@@ -326,6 +330,8 @@ def _ser(case, ctx, b, prog, opts):
                     ptkw = dict(ptkw, types=(first_cls,))
                 pto = PassThroughOptions(**ptkw)
                 for no_copy, check_type, use_method in itertools.product((True, False), (False, True), (False, True)):
+                    if check_type and not strict:
+                        continue
                     kw = dict(base_kw, no_copy=no_copy, check_type=check_type, pass_through=pto)
                     if use_method:
                         got = outcome(lambda: serialization_method(tp, **kw)(real))
